@@ -199,7 +199,7 @@ def shard(rec, tier, index, n_shards, leg=None):
         for fa in taco.all_formats(oa):
             for fb in taco.all_formats(ob):
                 work.append(("mat", fa, fb))
-    reps = 5 if tier == "quick" else 12
+    reps = 5 if tier == "quick" else 40
     for kind, fa, fb in work[index::n_shards]:
         for _ in range(reps):
             if kind == "bin":
